@@ -71,6 +71,30 @@ RelA == {<<>>} \cup {<<x>> : x \in UpTo(C16, KLabel)}
 NamesA == WithAbs(RelA)
 OriginsA == {NoOrigin, Some(Root), Some(<< <<101, 120>>, <<>> >>)}          \* None  .  ex.
 
+(* C01 (a'): control octets in otherwise hostname-style labels - in particular as the LAST octet
+   (a trailing newline is what regular-expression `$` anchors overlook), also first and in the
+   middle.  HT LF VT FF CR US, plus NUL, SP, DEL;  hostname characters  a A 0 - _ * *)
+CtlOctets == {9, 10, 11, 12, 13, 31, 0, 32, 127}
+HostOctets == {97, 65, 48, 45, 95, 42}
+HostPrefix == {<<>>} \cup T1(HostOctets) \cup T2(HostOctets)
+CtlLabels == {p \o <<c>> : p \in HostPrefix, c \in CtlOctets}
+             \cup {<<c, h>> : c \in CtlOctets, h \in HostOctets}
+             \cup {<<97, c, 97>> : c \in CtlOctets}
+CtlRel == {<<x>> : x \in CtlLabels} \cup {<<x, <<97>>>> : x \in CtlLabels} \cup {<<<<97>>, x>> : x \in CtlLabels}
+CtlNames == WithAbs(CtlRel)
+TextNames == NamesA \cup CtlNames
+
+(* C01 (d'): Name(...) built from `str` labels: the limits are on the UTF-8 OCTETS held, not on
+   the characters.  A label is <<w, k>> = k characters of w octets each (a, U+00E9, U+20AC,
+   U+1F600); labels around 63 / 64 octets and characters, names of 2..5 equal labels (+ a short
+   ASCII tail) around 255 / 256 octets.  The driver builds the strings; <<labels, absolute>>. *)
+StrLabels == {<<w, k>> : w \in 1..4, k \in {1, 2}} \cup {<<w, (63 \div w) + d>> : w \in 1..4, d \in {-1, 0, 1}}
+             \cup {<<w, 63>> : w \in 2..4} \cup {<<w, 64>> : w \in 1..4}
+StrBase == {<<1, 62>>, <<1, 63>>, <<2, 30>>, <<2, 31>>, <<3, 20>>, <<3, 21>>, <<4, 15>>, <<4, 16>>}
+StrTails == {<<>>} \cup {<<<<1, t>>>> : t \in 1..3}
+StrNames == {<<<<l>>, ab>> : l \in StrLabels, ab \in BOOLEAN}
+            \cup {<<Rep(l, m) \o t, ab>> : l \in StrBase, m \in 2..5, t \in StrTails, ab \in BOOLEAN}
+
 (* C01 (b): texts over the escape alphabet  a 0 2 5 9 . \ @ 0xE9 *)
 T9 == {97, 48, 50, 53, 57, 46, 92, 64, 233}
 Texts == {<<>>} \cup UpTo(T9, KText)
